@@ -16,6 +16,8 @@ Section QInd.
   Hypothesis HNamed : forall n inner inv, P inner -> P (QNamed n inner inv).
   Hypothesis HAttr : forall negs a, P (QAttr negs a).
   Hypothesis HInfo : forall negs k v, P (QInfo negs k v).
+  Hypothesis HAttrT : forall negs a, P (QAttrT negs a).
+  Hypothesis HInfoI : forall inv k v, P (QInfoI inv k v).
   Hypothesis HJ : forall k ms, Forall P ms -> P (QJ k ms).
 
   Fixpoint qobj_ind' (q : qobj) : P q :=
@@ -27,6 +29,8 @@ Section QInd.
     | QNamed n inner inv => HNamed n inner inv (qobj_ind' inner)
     | QAttr negs a => HAttr negs a
     | QInfo negs k v => HInfo negs k v
+    | QAttrT negs a => HAttrT negs a
+    | QInfoI inv k v => HInfoI inv k v
     | QJ k ms =>
         HJ k ms ((fix go (l : list qobj) : Forall P l :=
                     match l with
@@ -57,7 +61,7 @@ Qed.
 
 Lemma qobj_eqb_eq : forall a b, qobj_eqb a b = true -> a = b.
 Proof.
-  induction a as [| | | |n inner inv IHa| | |k ms HF] using qobj_ind'; destruct b; simpl; try congruence; intro E.
+  induction a as [| | | |n inner inv IHa| | | | |k ms HF] using qobj_ind'; destruct b; simpl; try congruence; intro E.
   - apply andb_true_iff in E. destruct E as [H1 H2].
     apply cmp_eqb_eq in H1. apply Z.eqb_eq in H2. congruence.
   - apply andb_true_iff in E. destruct E as [H1 H2].
@@ -71,6 +75,11 @@ Proof.
   - apply andb_true_iff in E. destruct E as [H12 H3].
     apply andb_true_iff in H12. destruct H12 as [H1 H2].
     apply Nat.eqb_eq in H1. apply String.eqb_eq in H2. apply String.eqb_eq in H3. congruence.
+  - apply andb_true_iff in E. destruct E as [H1 H2].
+    apply Nat.eqb_eq in H1. apply acond_eqb_eq in H2. congruence.
+  - apply andb_true_iff in E. destruct E as [H12 H3].
+    apply andb_true_iff in H12. destruct H12 as [H1 H2].
+    apply Bool.eqb_prop in H1. apply String.eqb_eq in H2. apply String.eqb_eq in H3. congruence.
   - apply andb_true_iff in E. destruct E as [H1 H2].
     apply jk_eqb_eq in H1. subst k0. f_equal.
     revert ms0 H2. induction HF as [|x r Hx Hr IH]; intros ns H2; destruct ns; try congruence.
@@ -315,7 +324,7 @@ Qed.
 
 Lemma flatten_sem f k o : forall q, jsem k (fun m => holds f m o) (flatten k q) = holds f q o.
 Proof.
-  induction q as [| | | |n inner inv IHq| | |k' ms HF] using qobj_ind';
+  induction q as [| | | |n inner inv IHq| | | | |k' ms HF] using qobj_ind';
     try (rewrite flatten_other by (intros; congruence); rewrite jsem_single; reflexivity).
   destruct (jk_eqb k k') eqn:E.
   - apply jk_eqb_eq in E. subst k'. rewrite flatten_QJ_same, jsem_flat_map, holds_QJ.
@@ -327,7 +336,7 @@ Qed.
 
 Lemma flatten_tabs k : forall q, tabs_union (flatten k q) = mtabs q.
 Proof.
-  induction q as [| | | |n inner inv IHq| | |k' ms HF] using qobj_ind';
+  induction q as [| | | |n inner inv IHq| | | | |k' ms HF] using qobj_ind';
     try (rewrite flatten_other by (intros; congruence); simpl; apply tabs_or_0_r).
   destruct (jk_eqb k k') eqn:E.
   - apply jk_eqb_eq in E. subst k'. rewrite flatten_QJ_same, mtabs_QJ.
